@@ -606,3 +606,104 @@ def r7_signed_magnitudes(ctx):
 
 
 RULES += [r7_signed_magnitudes]
+
+
+def r8_shift_amounts(ctx):
+    ctx.rule("C13.r8", "every C++ shift in wrapint.cpp has an amount that is provably below 64 (a shift of a 64-bit value by 64 or more "
+             "is undefined and gives 1 << 64 == 1 on x86): a literal, W - k (k >= 1) or W under `W < 64` / a switch that handles 64 "
+             "separately for a width W, a run-time amount A under `!(A >= width)`, `width - A` under `A != 0` as well, and a "
+             "bits-to-keep count B under `!(B >= width)` (B + 1 can be 64)", floor=12)
+    WIDTHS = {"_width", "w", "width", "new_width"}
+    n = 0
+    for fn in ctx.db.fns(WI, cpk=W):
+        body = fn["body"]
+        g = None
+        for x, ps in walk_with_parents(body):
+            if not (x.get("k") == "bin" and x.get("op") in ("<<", ">>")):
+                continue
+            lt = x.get("LTC") or x.get("LT") or ""
+            if "long" not in lt and "int" not in lt:
+                continue
+            if g is None:
+                g = paths.guards(body)
+            amt = strip(x.get("R"))
+            while isinstance(amt, dict) and amt.get("k") in ("cast", "paren") and "e" in amt:
+                amt = strip(amt["e"])
+            n += 1
+            gs = [(strip(c), p) for c, p in g.get(id(x), ()) if not isinstance(c, tuple)]
+
+            def has_guard(pred):
+                return any(pred(c, p) for c, p in gs)
+
+            def name_of(e):
+                e = strip(e)
+                if isinstance(e, dict) and e.get("k") == "ref":
+                    return e.get("n")
+                if isinstance(e, dict) and e.get("k") == "mem":
+                    return src(e).replace("this->", "")
+                return None
+
+            def cmp_guard(lhs_name, ops_true, rhs_pred):
+                def pred(c, p):
+                    pp = cmp_parts(c)
+                    if not pp:
+                        return False
+                    op, a, b = pp
+                    if name_of(a) == lhs_name and rhs_pred(b):
+                        return (op in ops_true and p) or (op in {"<": (">=",), "<=": (">",), "!=": ("==",), ">=": ("<",), ">": ("<=",),
+                                                                "==": ("!=",)}.get(ops_true[0], ()) and not p)
+                    return False
+                return pred
+            is64 = lambda b: isinstance(strip(b), dict) and strip(b).get("k") == "lit" and strip(b).get("v") == "64"
+            iswidth = lambda b: name_of(b) in WIDTHS
+            iszero = lambda b: isinstance(strip(b), dict) and strip(b).get("k") == "lit" and strip(b).get("v") == "0"
+            ok, why = False, ""
+            if isinstance(amt, dict) and amt.get("k") == "lit":
+                ok = int(amt.get("v")) < 64
+            elif name_of(amt) in WIDTHS:
+                wn = name_of(amt)
+                in_switch = any(p.get("k") == "switch" and name_of(p.get("c")) == wn and
+                                any(y.get("k") == "case" and any(z.get("k") == "lit" and z.get("v") == "64" for z in walk(y.get("v") or y.get("c") or {}))
+                                    for y in walk(p)) for p in ps)
+                # a smaller width than one that is <= 64:  _width < new_width, new_width <= 64
+                smaller = wn == "_width" and has_guard(cmp_guard("new_width", (">",), is64)) is False and \
+                    any(is_call(y, name="sanity_check_bitwidth") for y in walk(body)) is False and False
+                ok = has_guard(cmp_guard(wn, ("<",), is64)) or in_switch
+                if not ok and wn == "_width":
+                    # sext: shifting by the OLD width after `bits_to_add == 0` was excluded and new_width <= 64 was checked
+                    ok = has_guard(lambda c, p: (cmp_parts(c) or (None,))[0] == "==" and name_of(cmp_parts(c)[1]) == "bits_to_add" and
+                                   iszero(cmp_parts(c)[2]) and p is False) and \
+                        has_guard(lambda c, p: (cmp_parts(c) or (None,))[0] == ">" and name_of(cmp_parts(c)[1]) == "new_width" and
+                                  is64(cmp_parts(c)[2]) and p is False)
+                why = "the width can be 64"
+            elif isinstance(amt, dict) and amt.get("k") == "bin" and amt.get("op") == "-" and name_of(amt.get("L")) in WIDTHS:
+                r = strip(amt.get("R"))
+                if isinstance(r, dict) and r.get("k") == "lit" and int(r.get("v")) >= 1:
+                    ok = True
+                else:
+                    an = name_of(r)
+                    ok = an is not None and has_guard(cmp_guard(an, (">=",), iswidth)) is False and \
+                        any((cmp_parts(c) or (None,))[0] == ">=" and name_of(cmp_parts(c)[1]) == an and iswidth(cmp_parts(c)[2]) and p is False
+                            for c, p in gs) and \
+                        any((cmp_parts(c) or (None,))[0] == "==" and name_of(cmp_parts(c)[1]) == an and iszero(cmp_parts(c)[2]) and p is False
+                            for c, p in gs)
+                    why = "the amount width - A is the whole width when A is 0"
+            elif name_of(amt) is not None:
+                an = name_of(amt)
+                ok = any((cmp_parts(c) or (None,))[0] == ">=" and name_of(cmp_parts(c)[1]) == an and iswidth(cmp_parts(c)[2]) and p is False
+                         for c, p in gs)
+                why = "nothing excludes an amount of the width or more"
+            elif isinstance(amt, dict) and amt.get("k") == "bin" and amt.get("op") == "+":
+                ok = False
+                why = "B + 1 is 64 for B = 63 (B < width <= 64 is all the guard gives)"
+            if ok:
+                ctx.ok("%s: shift amount `%s` is below 64" % (fn["name"], src(amt)[:30]), fn, x)
+            else:
+                ctx.bad("wrapint::%s shifts by `%s` and %s: a shift by 64 is undefined (x86 gives x << 64 == x), e.g. ashr by 0 at width "
+                        "64 returned all ones and keep_lower(63) at width 64 returned 0" % (fn["name"], src(amt)[:40], why or "it is not bounded"),
+                        fn, x, sig="shift-amount-unbounded:%s:%s" % (fn["name"], src(amt)[:30]))
+    if n == 0:
+        ctx.fail("rule C13.r8: no shift found in wrapint.cpp")
+
+
+RULES += [r8_shift_amounts]
